@@ -54,7 +54,7 @@ for p in props:
         na.append({'property_id': p['id'], 'reason': 'check not built yet (work in progress); the design for it is in DESIGN.md section 4'})
 m = {
  'version': 1,
- 'setup_cmd': "/venv/bin/python -m compileall -q isosim && /venv/bin/python -c \"import sys; sys.path.insert(0,'.'); from isosim import world; world.ensure_repo_on_path(); print('isosim ok')\"",
+ 'setup_cmd': "/venv/bin/python -m compileall -q isosim && /venv/bin/python -c \"import sys; sys.path.insert(0,'.'); from isosim import world; world.ensure_repo_on_path(); print('isosim ok')\" && bin/selftest -q",
  'hooks': {'guard': 'PYCDLIB_VERIF', 'enable': 'PYCDLIB_VERIF=1 in the environment before pycdlib is imported (isosim/world.py sets it): makes pycdlib.pycdlib._MAX_EXTENT_LENGTH (the length at which a file is split into several extents, 0xfffff800 as shipped) overridable, through PYCDLIB_VERIF_MAX_EXTENT or by the simulator assigning the module attribute per run; every other seam (time, random, uuid, open, os, file objects, tool module globals) is reached from outside without any change to /repo',
            'baseline_off_cmd': 'cd /repo && /venv/bin/python -m pytest -ra -q -p no:cacheprovider --timeout=900 --continue-on-collection-errors',
            'source_commits': ['1311f1a8840973689b25d67fa52d5ff0d20fe56f'], 'add_only': False},
